@@ -17,11 +17,13 @@ Fixpoint(e) == e.reparsed /\ e.p1 = e.p2
 SameEvaluation(e) == e.eval1 = e.eval2
 Total(e) == ~e.panicked /\ (e.ok \/ (e.line >= 1 /\ e.line <= e.lines /\ e.col >= 0 /\ e.col <= e.maxcol + 1))
 TraceInit == l = 1
+\* a rejected event is printed and the trace goes on: one run judges every event, a known finding early in the trace
+\* does not keep the later ones from being judged
+Ok(e) == CASE e.kind = "roundtrip" -> Fixpoint(e) /\ SameEvaluation(e)
+           [] e.kind = "mutant"    -> Total(e)
 TraceNext ==
   /\ l <= Len(Trace)
   /\ l' = l + 1
-  /\ LET e == Trace[l] IN
-       \/ e.kind = "roundtrip" /\ ((Fixpoint(e) /\ SameEvaluation(e)) = TRUE)
-       \/ e.kind = "mutant" /\ (Total(e) = TRUE)
+  /\ IF Ok(Trace[l]) THEN TRUE ELSE PrintT(<<"TRACE", ToJson([reject |-> l])>>)
 TraceAccepted == TLCGet("stats").diameter - 1 = Len(Trace)
 =============================================================================
